@@ -841,6 +841,8 @@ class Frame:
                     return self.entity(r, n)
                 raise Unsupported('unknown global %s' % full, n, self.module.relpath)
         base = self.ev(n.value)
+        if base is None:
+            raise _RaisedExc(Raised('AttributeError', n))
         if isinstance(base, Obj):
             return self.obj_attr(base, n.attr, n)
         if isinstance(base, ListV) and n.attr == 'T':
@@ -1460,6 +1462,13 @@ def _isclass(I, fr, args, kwargs, n):
     return isinstance(args[0], ClassInfo)
 
 
+def _np_mean(I, fr, args, kwargs, n):
+    v = _arg(args, kwargs, 0, 'a')
+    if isinstance(v, ListV) and v.items:
+        return I.binop('/', I.np_sum(v), C(len(v)))
+    raise Unsupported('np.mean operand', n)
+
+
 def _np_roots(I, fr, args, kwargs, n):
     co = _arg(args, kwargs, 0, 'p')
     if not isinstance(co, ListV):
@@ -1773,6 +1782,7 @@ NATIVE = {
     'numpy.append': _np_append,
     'numpy.argmax': _np_argmax,
     'numpy.roots': _np_roots,
+    'numpy.mean': _np_mean,
     'numpy.linspace': _np_linspace,
     'inspect.isclass': _isclass,
     'numpy.isreal': _np_isreal,
